@@ -227,11 +227,14 @@ Definition get_pfn_map_bits (maps : list fmap) (first last : N) (buf : list N) :
   | Fuel => Fuel
   end.
 
-(* sort_pfn_file_maps: qsort by end_pfn (insertion sort here) *)
+(* sort_pfn_file_maps: qsort by (end_pfn, start_pfn) — the tie-break of fixes/40-*.patch puts
+   an empty window [n, n) after the window that ends at n (insertion sort here) *)
+Definition map_le (a b : fmap) : bool :=
+  (end_pfn a <? end_pfn b) || ((end_pfn a =? end_pfn b) && (start_pfn a <=? start_pfn b)).
 Fixpoint insert_map (m : fmap) (l : list fmap) : list fmap :=
   match l with
   | [] => [m]
-  | x :: t => if end_pfn m <=? end_pfn x then m :: l else x :: insert_map m t
+  | x :: t => if map_le m x then m :: l else x :: insert_map m t
   end.
 Definition sort_maps (l : list fmap) : list fmap := fold_right insert_map [] l.
 
